@@ -26,6 +26,8 @@ MODELS = 'emg3d/models.py'
 
 
 def run(ctx):
+    from . import c11
+    c11.rule_P2(ctx, only='_compute_1d', rid='C19.L2.order')
     ctx.explanation = (
         'Structural clauses of the layered path are read off the AST: '
         'normalisation of the extraction weights dominates their use, the '
@@ -66,6 +68,46 @@ def run(ctx):
     ctx.check('C19.L1.weights', 'extract_1d: midpoint weight is one',
               len(one) == 1, 'midpoint extraction does not use weight 1',
               ctx.where(mm, ex))
+    # L1.flag: cylinder/prism fall back to the midpoint cell when the ellipse
+    # selects nothing; from then on the fallback flag, not `method`, must
+    # decide between averaging and the single cell
+    fl = find("_F_ = method == 'midpoint'", ex)
+    ctx.anchor(len(fl) == 1 and isinstance(fl[0][1]['_F_'], str),
+               'midpoint flag in extract_1d')
+    Fm = fl[0][1]['_F_']
+    fb = find(f'if not _ix_.size:\n    {Fm} = True', ex)
+    ctx.check('C19.L1.flag', 'extract_1d: empty selection falls back to '
+              'midpoint', len(fb) == 1, 'an empty ellipse selection does not '
+              'switch to the midpoint cell', ctx.where(mm, ex))
+    if fb:
+        after = fb[0][0].lineno
+        stale = [n for n in ast.walk(ex) if isinstance(n, (ast.If, ast.IfExp))
+                 and n.lineno > after and any(
+                     isinstance(x, ast.Constant) and x.value == 'midpoint'
+                     for x in ast.walk(n.test))]
+        ctx.check('C19.L1.flag', 'extract_1d: no branch on `method` vs '
+                  "'midpoint' after the fallback", not stale,
+                  'a branch after the empty-selection fallback tests the '
+                  f'requested method instead of the flag `{Fm}`: in the '
+                  'fallback case the single-cell weight is treated as an '
+                  'ellipse average (0/0 weights)',
+                  ctx.where(mm, stale[0] if stale else ex))
+
+        def arm(node):
+            g = [(ast.unparse(t).replace(' ', ''), pol)
+                 for t, pol in au.guards_of(node, ex)]
+            for t, pol in g:
+                if t == Fm:
+                    return pol
+                if t == f'not{Fm}':
+                    return not pol
+            return None
+        if one and outer:
+            ctx.check('C19.L1.flag', 'extract_1d: weight arms follow the '
+                      'flag', arm(one[0][0]) is True and
+                      arm(outer[0][0]) is False, 'the single-cell weight / '
+                      f'area weights are not selected by `{Fm}`',
+                      ctx.where(mm, one[0][0]))
     lg = find("if not self.map.name.startswith('L'):\n"
               "    _v_ = np.log10(_v_)", ex)
     pw = find("if not self.map.name.startswith('L'):\n"
